@@ -521,7 +521,9 @@ def time_evolve(psi: np.ndarray, hamiltonian: np.ndarray,
         def ode_rhs(_, y_vec):
             return rhs_matrix @ y_vec
         t_span = (0, time_difference)
-        solution = solve_ivp(ode_rhs, t_span, psi.flatten(),
+        # The right hand side is complex, so the initial value has to be too.
+        solution = solve_ivp(ode_rhs, t_span,
+                                psi.flatten().astype(complex),
                                 method=mode.value,
                                 t_eval=[time_difference])
         result_vector = solution.y[:,0]
